@@ -198,6 +198,7 @@ package main
 //@   loop 1
 //@     invariant -1 <= rangeindex && rangeindex < 2 && opts == old(opts) && !attacked && !bodyRead && files != nil
 //@     invariant rangeindex >= 1 && opts.bodyf != "" ==> has(files, opts.bodyf)
+//@     invariant [options-as-given] opts.redirects == old(opts.redirects) && opts.timeout == old(opts.timeout) && opts.workers == old(opts.workers) && opts.maxWorkers == old(opts.maxWorkers) && opts.keepalive == old(opts.keepalive) && opts.connections == old(opts.connections) && opts.maxConnections == old(opts.maxConnections) && opts.http2 == old(opts.http2) && opts.h2c == old(opts.h2c) && opts.maxBody == old(opts.maxBody) && opts.unixSocket == old(opts.unixSocket) && opts.chunked == old(opts.chunked) && opts.dnsTTL == old(opts.dnsTTL) && opts.connectTo == old(opts.connectTo) && opts.sessionTickets == old(opts.sessionTickets) && opts.proxyHeaders.Header == old(opts.proxyHeaders.Header) && opts.headers.Header == old(opts.headers.Header) && opts.rate.Freq == old(opts.rate.Freq) && opts.rate.Per == old(opts.rate.Per) && opts.duration == old(opts.duration) && opts.name == old(opts.name) && opts.bodyf == old(opts.bodyf) && opts.targetsf == old(opts.targetsf) && opts.lazy == old(opts.lazy) && opts.format == old(opts.format) && opts.outputf == old(opts.outputf)
 
 // processAttack: every result received from the attack is observed (if metrics are on) and written
 // exactly once, in the order received, until the channel is closed, a write fails or a second signal.
